@@ -98,7 +98,7 @@ def _prune(d, keep=4):
 
 def mir_dir(log=None):
     """directory holding <crate>.mir and doc/<crate>.json for the current tree"""
-    key = tree_hash(); out = os.path.join(CACHE, 'mir', key)
+    key = tree_hash() + '-da'; out = os.path.join(CACHE, 'mir', key)      # -da: dumped with debug assertions on (dev profile: debug_assert! is a panic edge)
     if os.path.exists(os.path.join(out, 'OK')):
         os.utime(out); return out
     with Lock('mir'):
@@ -111,7 +111,7 @@ def mir_dir(log=None):
         for c in CRATES:
             lib = {'common_defs': 'common-defs'}.get(c, c)
             os.utime(os.path.join(src, 'crates', lib, 'src', 'lib.rs'))
-            r = subprocess.run(['cargo', '+nightly', 'rustc', '--offline', '-p', c, '--lib', '--', '-Zunpretty=mir', '-C', 'debug-assertions=off',
+            r = subprocess.run(['cargo', '+nightly', 'rustc', '--offline', '-p', c, '--lib', '--', '-Zunpretty=mir', '-C', 'debug-assertions=on', '-Zub-checks=no',
                                 '-C', 'overflow-checks=on'], cwd=src, env=env, capture_output=True, text=True)
             if r.returncode != 0 or not r.stdout.strip():
                 raise BuildError('MIR dump of %s failed (the tree does not compile?):\n%s' % (c, r.stderr[-1500:]))
